@@ -584,6 +584,10 @@ func calculateHashes(numLeaves uint64, delHashes []Hash, proof Proof) (hashAndPo
 		for provePos > maxPos {
 			verifTick("calculateHashes.row")
 			row++
+			if row > totalRows {
+				return hashAndPos{}, nil, fmt.Errorf("invalid proof. Position %d "+
+					"doesn't exist in an accumulator with %d leaves", provePos, numLeaves)
+			}
 			maxPos, _ = maxPositionAtRow(row, totalRows, numLeaves)
 		}
 
